@@ -47,6 +47,7 @@ class ROSPoseMessage(MessagePayload):
         struct.pack_into(ROSPoseMessage._FORMAT, buffer, offset,
                          self.position_rel_m[0], self.position_rel_m[1], self.position_rel_m[2],
                          self.orientation[0], self.orientation[1], self.orientation[2], self.orientation[3])
+        offset += ROSPoseMessage._SIZE
 
         if return_buffer:
             return buffer
@@ -198,6 +199,7 @@ class ROSGPSFixMessage(MessagePayload):
                          self.position_covariance_m2[6], self.position_covariance_m2[7], self.position_covariance_m2[8],
                          self.position_covariance_type,
                          self.reserved[0], self.reserved[1], self.reserved[2])
+        offset += ROSGPSFixMessage._SIZE
 
         if return_buffer:
             return buffer
@@ -311,6 +313,7 @@ class ROSIMUMessage(MessagePayload):
             self.acceleration_covariance[3], self.acceleration_covariance[4], self.acceleration_covariance[5],
             self.acceleration_covariance[6], self.acceleration_covariance[7], self.acceleration_covariance[8],
             )
+        offset += ROSIMUMessage._SIZE
 
         if return_buffer:
             return buffer
